@@ -48,6 +48,17 @@ def runEquiv (lines : List String) : List String := Id.run do
   else if af.n ≤ 9 then
     if !(implClasses.all (fun c => c.all (fun a => c.all (fun b => sameCompleteB af a b)))) then
       verdict := "BAD merged arguments are distinguishable by a complete extension"
+    else
+      -- "in particular all arguments of the grounded extension together, and all arguments it defeats together":
+      -- the grounded extension is the set of arguments that are in every complete extension
+      let cos := extsCO af
+      let gr := (List.range af.n).filter (fun a => cos.all (fun e => e.contains a))
+      let de := (List.range af.n).filter (fun b => gr.any (fun a => af.atts.contains (a, b)))
+      let clsOf := fun (a : Nat) => (implI2r.find? (fun p => p.1 == a)).map (·.2)
+      if !(gr.all (fun a => clsOf a == clsOf (gr.headD 0))) then
+        verdict := "BAD the arguments of the grounded extension are not merged into one class"
+      else if !(de.all (fun a => clsOf a == clsOf (de.headD 0))) then
+        verdict := "BAD the arguments defeated by the grounded extension are not merged into one class"
   return (s!"verdict {verdict}" :: out).reverse
 
 end Driver
